@@ -372,6 +372,7 @@ func judgeGroup(items []*harvest.Item, purls []*purl.PackageURL, skip []bool) (v
 type replay struct {
 	Extractor string `json:"extractor"`
 	Fixture   string `json:"fixture"`
+	Env       string `json:"os_release_env"`
 	Index     int    `json:"index"`
 	Synth     string `json:"synth"`
 }
@@ -399,7 +400,7 @@ func runUnit(r *ev.Run, u unit, report func(it *harvest.Item, v viol)) {
 				}
 			}
 			if pu != nil {
-				r.Distinct(it.Ex.Name + "\x00" + it.Pkg.Name + "\x00" + it.Pkg.Version + "\x00" + pu.String() + "\x00" + it.Synth)
+				r.Distinct(it.Ex.Name + "\x00" + it.Env + "\x00" + it.Pkg.Name + "\x00" + it.Pkg.Version + "\x00" + pu.String() + "\x00" + it.Synth)
 			}
 		}
 		for _, v := range vs {
@@ -461,7 +462,13 @@ func doReplay(file string) {
 		os.Exit(3)
 	}
 	src := ev.RepoDir() + "/" + ex.PkgDir + "/testdata"
-	if err := harvest.CopyTree(src, scratch+"/td"); err != nil {
+	var env harvest.OSEnv
+	for _, e := range harvest.OSEnvs() {
+		if e.Label == rec.Replay.Env {
+			env = e
+		}
+	}
+	if err := harvest.PrepareTestdata(src, scratch+"/td", env); err != nil {
 		fmt.Println("replay:", err)
 		os.RemoveAll(scratch)
 		os.Exit(3)
@@ -475,7 +482,7 @@ func doReplay(file string) {
 			continue
 		}
 		p.Extractor = ex.E
-		it := &harvest.Item{Ex: *ex, Fixture: rec.Replay.Fixture, Required: req, Index: k, Pkg: p}
+		it := &harvest.Item{Ex: *ex, Fixture: rec.Replay.Fixture, Env: rec.Replay.Env, Required: req, Index: k, Pkg: p}
 		if rec.Replay.Synth != "" {
 			for _, s := range append(harvest.Substitutions(), harvest.PairSubstitutions()...) {
 				if s.Label == rec.Replay.Synth {
@@ -516,6 +523,19 @@ func main() {
 		os.Exit(3)
 	}
 	r.Set("harvest", st)
+	if os.Getenv("VERIF_C14_DUMP") != "" { // debugging aid: list the harvest
+		for _, it := range items {
+			u := "<nil>"
+			ev.Recover(func() {
+				if pu := it.Ex.E.ToPURL(it.Pkg); pu != nil {
+					u = pu.String()
+				}
+			})
+			eco := ""
+			ev.Recover(func() { eco = it.Pkg.Ecosystem() })
+			fmt.Printf("DUMP %s name=%q version=%q purl=%s ecosystem=%q\n", it.ID(), it.Pkg.Name, it.Pkg.Version, u, eco)
+		}
+	}
 	for _, s := range st.ExtractPanics {
 		r.Assume("DC1 skipped (Extract panicked on a fixture; C02 decides that): " + s)
 	}
@@ -541,7 +561,7 @@ func main() {
 	group := map[string][]*harvest.Item{}
 	var order []string
 	for _, it := range items {
-		k := it.Ex.Name + "\x00" + it.Fixture
+		k := it.Ex.Name + "\x00" + it.Fixture + "\x00" + it.Env
 		if _, ok := group[k]; !ok {
 			order = append(order, k)
 		}
@@ -587,7 +607,7 @@ func main() {
 	found := make([][]pending, len(units))
 	done := r.ParallelFor(len(units), func(i int) {
 		runUnit(r, units[i], func(it *harvest.Item, v viol) {
-			found[i] = append(found[i], pending{v, replay{it.Ex.Name, it.Fixture, it.Index, it.Synth}})
+			found[i] = append(found[i], pending{v, replay{it.Ex.Name, it.Fixture, it.Env, it.Index, it.Synth}})
 		})
 	})
 	for _, f := range found { // reported in enumeration order: deterministic first witness per key
